@@ -25,6 +25,11 @@ CHECKS = {
          "Rule files are generated from the documented grammar together with their AST, rendered under independently switchable whitespace features, comment placements and hostile string contents, parsed by parse_rules, parse_with_modules and (rule by rule) parse_rule, and compared piece by piece (count, order, name, salience, each attribute, flattened condition tree with every leaf, action list). Failing files are shrunk over rules, layout features, comments, attributes, condition, actions and string contents; the signature is the set of hostile features that survived (or, on plain grammar, the clause and remaining structure). Held = every explored file parsed equal to what was written, apart from the listed known findings.",
          "The expected AST encodings (bare path = Value::Expression, arithmetic leaf = one Test leaf with the same tokens, flattened And/Or) are the harness's reading of the parser's contract; Rule.description is not compared. A failing file that still contains a feature listed as a known finding is attributed to that finding (a tainted file proves nothing new); files without such features are always reported in full.",
          "DESIGN.md §5 C04"),
+ "C05": ("exploration",
+         "crash/hang monitor: seeded hostile text generators drive the 13 public text entry points (14 calls) inside batched worker child processes of a release and a debug-assertions/overflow-checks build (8 MiB main-thread stack, kernel RLIMIT_CPU armed per call, SIGXCPU handler reporting the call site); panics caught with message class + innermost crate frame; a dead child is attributed to the announced call and the culprit re-run alone; witnesses delta-debugged",
+         "Every generated UTF-8 input <= 4 KiB (raw bytes, token soup, slot templates, mutation of the repository's GRL corpus, expression and stream-pattern grammars, multi-byte insertion at every token boundary, every truncation, bracket nesting <= 32, full-length prefix chains) must return a value or an error from all 14 calls in both builds within 120 CPU-seconds and without killing the process. Held = that was so for every explored input apart from the listed open findings; the grid of full-length prefix chains and the multi-byte / truncation sweeps over the embedded seeds are enumerated completely in the thorough tier, everything else is sampled.",
+         "CPU time is the kernel's (RLIMIT_CPU per call, child rusage), never wall clock. Slow pairs whose observed call site is that of an open cpu finding are not re-judged. In the quick tier the pinned witnesses of open cpu findings are re-confirmed with a 20 CPU-second budget (still hanging at the same call site); the full 120 s re-run happens in the thorough tier and for every new hang. The devopt sub-check is inconclusive without VERIF_DEVOPT_BIN (./check builds it).",
+         "DESIGN.md §5 C05"),
  "C06": ("exploration",
          "recorder-wrapped action closures, three-valued reference evaluator and shadow working memory (history monitor) over exhaustive and random insert/update/retract/fire_all/reset histories of GRL-loaded single-type rules",
          "Generates single-type typed-core rules as GRL text and loads them through the real parser and loader (hook H3); every action is wrapped with a recorder and histories are run on IncrementalEngine. Exhaustive for two 2-rule programs over a 12-operation alphabet to the stated length, random up to 12 ops, 6 facts, 3 types and 4 rules, including actions that modify or retract the matched fact. Every firing is judged on the matched fact's contents in the copy handed to the action; the first fire_all of Log-only no-loop histories must fire exactly the satisfied rules once; the four working-memory views are compared with a shadow for every handle ever issued after every op; handles are pairwise distinct. Held = no explored history broke a clause apart from the pinned findings.",
